@@ -344,6 +344,8 @@ def native_const(ctx, vname, bits, cname='HOLE'):
     sfx, v = parse_lit(txt.replace(' ', ''))
     if sfx != want:
         return False, det
+    if want.startswith('u') and isinstance(v, int) and v < 0:
+        return False, det                 # a negated literal is not a value of an unsigned type (it does not even compile)
     try:
         return bits_of(want, v) == bits, det
     except Exception:
